@@ -18,6 +18,9 @@ def rejection_cases(draw, max_n=60, logprobs=False):
         "n": n,
         "profile": draw(st.sampled_from(fakes.PROFILES[:6])),
         "profile_seed": draw(st.integers(0, 10**6)),
+        # log-likelihoods carry an arbitrary additive constant (number of epochs, units of the data): far outside the
+        # range where exp() of the raw value is representable
+        "ll_shift": draw(st.sampled_from([0.0, 0.0, 0.0, -3000.0, 2500.0, -1e5])),
         "path": draw(st.sampled_from(["mem", "cache", "file"])),
         "n_prior": draw(st.one_of(st.none(), st.integers(1, n))),
         "max_post": draw(st.one_of(st.none(), st.integers(1, n + 2))),
@@ -42,7 +45,7 @@ def rejection_cases(draw, max_n=60, logprobs=False):
 
 def profile_of(case):
     vals = np.random.default_rng(case["profile_seed"]).random(case["n"])
-    return fakes.make_profile(case["profile"], case["n"], vals)
+    return fakes.make_profile(case["profile"], case["n"], vals) + float(case.get("ll_shift", 0.0))
 
 
 def evaluation_order(case, rg):
